@@ -161,6 +161,8 @@ CHECKS = {
         "assumptions": ["porcupine v1.3.0 linearizability checker", "clock frozen within a phase"],
         "jobs": [
             {"run": "^TestC08Linearizable$", "n": {"quick": 20000, "thorough": 80000}},
+            # walking through the non-generic transfer adapters alongside writers (real time)
+            {"run": "^TestC08AdapterWalk$", "n": {"quick": 12, "thorough": 120}, "shrinktime": "5s"},
         ],
     },
     "C09": {
